@@ -3,7 +3,7 @@
 pysymex runs the real `Model` of every logic: frames are filled *directly*
 with symbolic truth values (`SymVal`: z3 integer index into the logic's
 values) for letters, predications over <= 3 constants and uninterpreted
-sentences at <= 2 (quick) / 3 worlds; the initial access pairs are symbolic
+sentences at <= 2 worlds (the frame alone on 3 / 4); the initial access pairs are symbolic
 booleans; then the real `finish()` and the real `value_of` run.  Per path z3
 decides  result == documented recursion  where the documented recursion is the
 term engine/semz3.Interp builds from the logic's own truth tables ("impl"),
@@ -242,7 +242,9 @@ def value_unit(arg):
     S = LogicSem(name)
     out = dict(logic=name, paths=0, decisions=0, queries=0, solver_time=0.0, bad=[], inexhausted=[],
                samples=[], shapes=0)
-    W = (3 if thorough else 2) if S.modal else 1
+    # two worlds in both tiers: three worlds x |values|^(letters x worlds) x 2^9 access relations does
+    # not exhaust for the many-valued logics (measured); the frame alone is explored on more worlds
+    W = 2 if S.modal else 1
     # documented quantifier semantics of the FDE family is min/max in the
     # linear order (doc/logics/include/fde/m.existential.rst); the lattice
     # reading is the C07 finding and must not be double-counted here
@@ -252,13 +254,18 @@ def value_unit(arg):
         # the frame alone on one more world: fork / join shaped initial relations need three
         # worlds (quick), chains of three steps need four (thorough)
         A0 = lang()[0]
-        shapes.append((f'frame-only W={W + 1}', A0, W + 1))
+        shapes.append((f'frame-only W={4 if thorough else 3}', A0, 4 if thorough else 3))
     for sname, s, W in shapes[chunk::nchunks]:
         K = 1
         if s.predicates or s.quantifiers:
             K = 3 if thorough else 2
             if S.info['classical'] and len(s.quantifiers) and not thorough:
                 K = 2
+            if thorough and S.modal:
+                # three worlds x three constants x |values| does not exhaust within any budget tried:
+                # shapes with predicates keep the quick tier's two worlds and two constants in the
+                # modal logics (three constants in the non-modal ones)
+                W, K = min(W, 2), 2
         I = Interp(S, 'impl', W=W + 1 if S.info['frame'] == 'serial' else W, K=K)
         def fn():
             return value_fn(logic, S, I, sname, s, W, K)
@@ -525,7 +532,7 @@ def run(ctx):
     rep = Report('C08', 'model_checking')
     thorough = not ctx.quick
     names = sorted(registry(n).Meta.name for n in registry.all())
-    budget = 400 if ctx.quick else 900
+    budget = 400 if ctx.quick else 420
     classical = [n for n in names if spec.logic_info(n)['classical']]
     with mp.Pool(ctx.jobs) as pool:
         ar_lim = pool.apply_async(limit_unit, (budget,))
@@ -601,7 +608,7 @@ def run(ctx):
                            reachability_twin_refuted=xh['refuted_twin'], seconds=xh['seconds'],
                            bounds='lists of 1..4 integers, arbitrary limit; per-condition timeout 30 s'),
         sentence_shapes=shapes, identity_sample=ids[0]['sample'] if ids else None,
-        bounds=dict(worlds=3 if thorough else 2, constants=3 if thorough else 2, depth=2,
+        bounds=dict(worlds=2, constants='2; thorough: 3 in the non-modal logics', depth=2,
                     frame_only=f'every initial relation on {4 if thorough else 3} worlds'
                                + (' (irreflexive pairs symbolic)' if thorough else ''),
                     identity='3 (quick) / 4 set_value calls from 8 facts about a, b, c, any order, 2 worlds',
